@@ -780,6 +780,40 @@ def h_agentdef(env):
             P("hosting_cost.specific-cost-is-returned", _num_same(got, hosting_before[c]), lambda: (c, got, hosting_before))
         else:
             P("hosting_cost.otherwise-the-default-hosting-cost", _num_same(got, exp_default_host), lambda: (c, got, exp_default_host, dh_given))
+    # frame: route() / hosting_cost() are observers. The tables handed in by the caller are not modified, and a second
+    # definition built on the SAME tables (what create_agents does for a whole family) with its own defaults
+    # still answers from its own cost model after the first one has been queried.
+    if routes is not None:
+        P("agentdef.frame.routes-table-of-the-caller-unchanged-by-queries",
+          list(routes.keys()) == list(routes_before.keys()) and all(routes[k] is routes_before[k] for k in routes_before),
+          lambda: (routes, routes_before))
+    if hosting is not None:
+        P("agentdef.frame.hosting-costs-table-of-the-caller-unchanged-by-queries",
+          list(hosting.keys()) == list(hosting_before.keys()) and all(hosting[k] is hosting_before[k] for k in hosting_before),
+          lambda: (hosting, hosting_before))
+    kw2 = dict(kw)
+    kw2["default_route"] = env.real("default_route_2")
+    kw2["default_hosting_cost"] = env.real("default_hosting_cost_2")
+    b = env.call(O.AgentDef, "a3", **kw2)
+    if isinstance(b, Raised):
+        P("agentdef.constructor-no-raise", False, detail=lambda: b.tb)
+        return
+    for c in _AG_COMPS + ["zz"]:
+        got = env.call(b.hosting_cost, c)
+        if isinstance(got, Raised):
+            P("hosting_cost.no-raise", False, lambda: (c, got.tb))
+            break
+        want = hosting_before[c] if (hosting_before is not None and c in hosting_before) else kw2["default_hosting_cost"]
+        P("hosting_cost.second-definition-on-the-same-table-answers-from-its-own-model", _num_same(got, want), lambda: (c, got, want))
+    for other in _AG_OTHERS:
+        if other == "a3":
+            continue
+        got = env.call(b.route, other)
+        if isinstance(got, Raised):
+            P("route.no-raise", False, lambda: (other, got.tb))
+            break
+        want = routes_before[other] if (routes_before is not None and other in routes_before) else kw2["default_route"]
+        P("route.second-definition-on-the-same-table-answers-from-its-own-model", _num_same(got, want), lambda: (other, got, want))
     for k, v in extras.items():
         got = env.call(getattr, a, k)
         if isinstance(got, Raised):
